@@ -134,3 +134,4 @@ inst!(c09a_empty_list, 5, 4);
 inst!(c09a_strlist_strlist, 6, 6);
 inst!(c09a_strlist_numlist, 6, 4);
 inst!(c09a_str_null, 3, 0);
+
